@@ -80,13 +80,14 @@ type worldInfo struct {
 	App     bool   // lives in the internal/app module (workspace build)
 	Swap    bool   // swap sync primitives
 	Race    bool   // additionally build & run a race variant
+	OneCPU  bool   // run the test binary with -test.cpu 1
 	Workers int
 }
 
 var worlds = map[string]worldInfo{
-	"A": {Pkg: "internal/verifw/worlda", Src: "worlda", Swap: true, Race: true},
+	"A": {Pkg: "internal/verifw/worlda", Src: "worlda", Swap: true, Race: true, OneCPU: true},
 	"B": {Pkg: "internal/verifw/worldb", Src: "worldb"},
-	"C": {Pkg: "internal/app/verifw/worldc", Src: "worldc", App: true},
+	"C": {Pkg: "internal/app/verifw/worldc", Src: "worldc", App: true, OneCPU: true},
 }
 
 var components = map[string]any{
@@ -481,7 +482,7 @@ func runWorker(sc *scratch, prop, tier, variant string, idx int, seed uint64, bu
 	shr, _ := time.ParseDuration(shrink)
 	hard := time.Duration(budget*float64(time.Second)) + shr + 180*time.Second
 	args := []string{"-test.run", "^TestSim$", "-test.count=1", "-test.timeout", (hard - 30*time.Second).String()}
-	if worlds[props[prop].World].Swap {
+	if worlds[props[prop].World].OneCPU {
 		args = append(args, "-test.cpu", "1")
 	}
 	cmd := exec.Command(bin, args...)
@@ -548,7 +549,7 @@ func replayOnce(sc *scratch, prop, variant, path string, extraEnv []string) (str
 	bin := sc.bins[variant]
 	out := filepath.Join(sc.dir, fmt.Sprintf("replay-out-%d.json", time.Now().UnixNano()))
 	args := []string{"-test.run", "^TestSim$", "-test.count=1", "-test.timeout", "10m", "-test.v"}
-	if worlds[props[prop].World].Swap {
+	if worlds[props[prop].World].OneCPU {
 		args = append(args, "-test.cpu", "1")
 	}
 	cmd := exec.Command(bin, args...)
@@ -996,6 +997,10 @@ func cmdSelftest(args []string) int {
 						h := sha256.Sum256(b)
 						sum = hex.EncodeToString(h[:8]) + fmt.Sprintf("/%dB", len(b))
 					}
+					if keep := os.Getenv("VERIF_SELFTEST_KEEP"); keep != "" {
+						_ = os.MkdirAll(keep, 0o755)
+						_ = os.WriteFile(filepath.Join(keep, filepath.Base(logf)), b, 0o644)
+					}
 					_ = os.Remove(logf)
 					if r.exitErr != nil || r.timedOut {
 						sum += " (worker failed)"
@@ -1021,7 +1026,19 @@ func cmdSelftest(args []string) int {
 			fmt.Printf("NONDETERMINISM seed=%d: %v\n", 7000+s, sums[s])
 		}
 	}
-	fmt.Printf("selftest determinism property=%s seeds=%d executions=%d divergent=%d\n", prop, nSeeds, nSeeds*len(procs)*len(variants), bad)
+	missing := 0
+	for s := 0; s < nSeeds; s++ {
+		for _, v := range sums[s] {
+			if strings.HasPrefix(v, "missing") || strings.Contains(v, "worker failed") {
+				missing++
+			}
+		}
+	}
+	fmt.Printf("sample: seed=7000 %v\n", sums[0])
+	fmt.Printf("selftest determinism property=%s seeds=%d executions=%d divergent=%d missing-or-failed=%d\n", prop, nSeeds, nSeeds*len(procs)*len(variants), bad, missing)
+	if missing > 0 {
+		return 2
+	}
 	if bad > 0 {
 		return 2
 	}
